@@ -42,7 +42,7 @@ Lemma vars_match_set k v l m : vars_match l m -> vars_match (assoc_set k v l) (a
 Proof. intros H k'. rewrite !assoc_assoc_set, (H k'). destruct (String.eqb k' k); reflexivity. Qed.
 
 Definition frame_match (sc:scope) (f:frame) : Prop :=
-  vars_match (sc_vars sc) (f_vars f) /\ f_ns f = sc_ns sc /\ f_bubble f = true.
+  vars_match (sc_vars sc) (f_vars f) /\ f_ns f = sc_ns sc /\ (f_bubble f = true /\ f_scope f = sc_name sc).
 Definition Match (s:sstate) (r:rt) (fs:list frame) : Prop :=
   Forall2 frame_match (st_scopes s) fs /\ world r = (mnss (st_nss s), st_trace s).
 
@@ -63,7 +63,7 @@ Lemma moved_set_vars f vs : moved f (set_vars f vs). Proof. destruct f; reflexiv
 Lemma lookup_match k : forall scs fs, Forall2 frame_match scs fs -> lookup_frames k fs = option_map cv (lookup_scopes k scs).
 Proof.
   induction 1 as [|sc f scs fs (V & N & B) H IH]; cbn [lookup_frames lookup_scopes]; [reflexivity|].
-  rewrite (V k), B. destruct (assoc k (sc_vars sc)); cbn; [reflexivity|exact IH].
+  rewrite (V k), (proj1 B). destruct (assoc k (sc_vars sc)); cbn; [reflexivity|exact IH].
 Qed.
 
 Lemma assign_match k v : forall scs fs, Forall2 frame_match scs fs ->
@@ -79,7 +79,7 @@ Proof.
     + constructor; [|apply kept_all_refl]. unfold kept. destruct f; reflexivity.
   - destruct IH as [(scs' & fs' & A1 & A2 & M & K)|[A1 A2]].
     + left. rewrite A1, A2. eexists _, _. split; [reflexivity|]. split; [reflexivity|]. split.
-      * constructor; [|exact M]. repeat split; assumption.
+      * constructor; [|exact M]. split; [exact V|split; [exact N|exact B]].
       * constructor; [apply kept_refl|exact K].
     + right. rewrite A1, A2. split; reflexivity.
 Qed.
